@@ -37,6 +37,7 @@ fn handler(op: &str) -> Option<Handler> {
         "DT" => Some(ops_types::dt_handler),
         "PFX" => Some(ops_types::pfx_handler),
         "RCB" => Some(ops_types::rcb_handler),
+        "PNU" => Some(ops_types::pnu_handler),
         "AIT" => Some(ops_types::ait_handler),
         "MIT" => Some(ops_types::mit_handler),
         "SINK" => Some(ops_sink::sink_handler),
